@@ -289,6 +289,16 @@ def grammars(draw, o):
             seen.add(key); alts.append({'items': its, 'alias': None})
         mod = draw(st.sampled_from(['', '', '?', '!'])) if not tmpl.startswith('_') else draw(st.sampled_from(['', '!']))
         rules.append({'name': tmpl, 'mod': mod, 'prio': None, 'params': tmpl_params, 'alts': alts})
+        if draw(st.integers(0, 1)) == 0:
+            # a second template that the first one calls with its own parameter (arguments travel through two instantiations)
+            tq = draw(st.sampled_from(['tq', '_tq', 'tq']))
+            its = anchored_seq([], 1, ('z',))
+            if not any(i[0] == 'p' for i in its):
+                its.append(['p', 'z'])
+            mod2 = draw(st.sampled_from(['', '!', '?', '!'])) if not tq.startswith('_') else draw(st.sampled_from(['', '!']))
+            rules.append({'name': tq, 'mod': mod2, 'prio': None, 'params': ['z'], 'alts': [{'items': its, 'alias': None}]})
+            a = alts[draw(st.integers(0, len(alts) - 1))]
+            a['items'].insert(draw(st.integers(0, len(a['items']))), ['tmpl', tq, [['p', tmpl_params[draw(st.integers(0, len(tmpl_params) - 1))]]]])
         if not _uses_tmpl(rules):
             rules[0]['alts'].append({'items': [['tmpl', tmpl, [named_term_item() for _ in tmpl_params]]], 'alias': None})
     return {'rules': rules, 'terms': terms, 'ignore': ignore}
